@@ -268,8 +268,9 @@ def _run_case(case, tier="quick"):
             with pd.time_limit(tl):
                 sols, exact, kind = _solve_all(case, force, opts)
         except pd.CaseTimeout:
-            outcomes.append(("inconclusive", None))
-            continue
+            # an interrupted sympy computation can leave its caches (CRootOf intervals) inconsistent:
+            # nothing further is evaluated in this process
+            return dict(base, status="inconclusive", bucket="time_limit")
         except RecursionError:
             outcomes.append(("inconclusive", None))
             continue
@@ -306,8 +307,7 @@ def _run_case(case, tier="quick"):
                                         detail={"component": i, "n": n, "polar": str(pv), "truth": fs(truth), "closed_form": str(sols[i]),
                                                 "flag_exact": exact, "solver": kind, "forced_cyclic": force, "case": case})
         except pd.CaseTimeout:
-            outcomes.append(("inconclusive", None))
-            continue
+            return dict(base, status="inconclusive", bucket="evaluation_time_limit")
         outcomes.append(("ok", kind))
     base["tags"] = tags
     st_ = [o[0] for o in outcomes]
